@@ -862,7 +862,13 @@ where
             match E::release() {
                 Op::Noop => {}
                 Op::Immutable(_) => shard.read().with(|shard| shard.release_immutable(&self.record)),
-                Op::Mutable(_) => shard.write().with(|mut shard| shard.release_mutable(&self.record)),
+                Op::Mutable(_) => shard.write().with(|mut shard| {
+                    // A concurrent lookup may have re-acquired the record between the decrement above and taking the
+                    // lock; it then owns the pin, and the last handle to be dropped releases it.
+                    if self.record.refs() == 0 {
+                        shard.release_mutable(&self.record)
+                    }
+                }),
             }
         }
     }
